@@ -1,12 +1,916 @@
-//! C04 — (stub: no ops yet)
+//! C04 — PSM features (`Scorer::score` → `score_candidate`, `build_features`) and `select_most_intense_peak`
+//!
+//!   tol   := 0 u32(lo) u32(hi)  (ppm)  |  1 u32(lo) u32(hi)  (Da)
+//!   pep   := h:seq [n u32 mod…] opt(u32 nterm) opt(u32 cterm) u32(monoisotopic)
+//!   peak  := u32(mass) u32(intensity)         (mass = m/z − PROTON: a ProcessedSpectrum<Peak> is built directly)
+//!
+//!   c04select tol u32(center) opt(u32 offset) [n peak…]   ->  0 | 1 u32(mass) u32(intensity)
+//!
+//!   score1 [k kind…] min_ion_index bucket [p pep…]  tol(fragment) tol(precursor) opt(max_fragment_charge)
+//!          min_isotope_err max_isotope_err openms annotate min_matched_peaks
+//!          u32(precursor m/z) opt(precursor_charge) min_precursor_charge max_precursor_charge
+//!          u32(total_ion_current) [n peak…]
+//!      ->  [f feature…] sorted by (peptide index, charge, isotope error)  |  panic
+//!   feature := pep_ix u32(isotope_error) peptide_len charge u32(expmass) u32(calcmass) u32(delta_mass)
+//!              u32(average_ppm) u64(hyperscore) matched_peaks longest_b longest_y u32(longest_y_pct)
+//!              u32(matched_intensity_pct) scored_candidates u64(poisson) u32(ms2_intensity)
+//!              opt([m (kind charge ordinal u32(intensity) u32(mz_calculated) u32(mz_experimental))…])
+//!
+//! kind: 0=a 1=b 2=c 3=x 4=y 5=z. The database contains exactly the given peptides
+//! (`Parameters::build_from_peptides`), the Scorer reports every candidate (`report_psms` = 1000, no chimera,
+//! no wide window; the precursor charge is annotated or, when `opt` is 0, left to the scorer's min..=max loop). NaNs are printed as the default quiet NaN.
 use super::Info;
-use crate::proto::{Case, Rng, Tier, Toks};
+use crate::proto::{Case, Out, Rng, Tier, Toks};
+use sage_core::database::{EnzymeBuilder, Parameters};
+use sage_core::enzyme::Position;
+use sage_core::ion_series::{IonSeries, Kind};
+use sage_core::mass::{monoisotopic, Tolerance, H2O, NEUTRON, PROTON, VALID_AA};
+use sage_core::peptide::Peptide;
+use sage_core::scoring::{ScoreType, Scorer};
+use sage_core::spectrum::{select_most_intense_peak, Peak, Precursor, ProcessedSpectrum};
+use std::sync::Arc;
 
-pub const OPS: &[&str] = &[];
-pub const INFO: Info = Info { rule: "", serial: false };
+pub const OPS: &[&str] = &["c04select", "score1"];
+pub const INFO: Info = Info {
+    rule: "score1: a database of 1-3 synthetic peptides (length 2..24 over VALID_AA, optional residue / terminal \
+           modifications, consistent mass, ascending mass), ion kinds mostly [b,y] but also single-sided, c/z, a/x, \
+           several kinds per terminus and all six; min_ion_index 0..3; fragment tolerance ppm or Da (symmetric and \
+           asymmetric); precursor charge 1..4 (annotated in 80% of the cases; otherwise None and the scorer assumes each charge of (2,4), (1,3), (2,2) or the empty range (3,2)), max_fragment_charge None/1/2/3; isotope error ranges (0,0), (-1,3), \
+           (0,1), (1,1), (-1,0); precursor tolerance wide (all peptides and isotopes are candidates) or narrow \
+           (the target and its isotope only); both score types; annotate on/off. The spectrum is synthesised from \
+           one peptide's own ladder (computed with IonSeries for ALL six kinds so unconfigured kinds act as decoys): \
+           per terminus a matched-index PATTERN (all, none, prefix including index 0, suffix, single index 0, \
+           alternating, two blocks with the longer first / last, random subset), each chosen ion at a random charge \
+           1..3 or at all charges, the peak displaced by a fraction of the tolerance in {0, +-0.5, +-0.9, +-0.999, \
+           +-1.001, +-1.1, +-2} or by +-1..3 ulp around the exact window edge; 25% of the windows get 2-3 peaks \
+           (equal intensities = ties, or distinct); intensities from {0, 1, 2.5, 10, 100, random}; random noise \
+           peaks; directed: empty spectrum, a dense spectrum (peak every ~0.37 Da), the complete PEPTIDEK ladder \
+           (the repaired index-0 finding), TIC = sum / arbitrary / 0. A separate stream tagged neg-intensity feeds \
+           negative and NaN intensities (outside the property: compared with the model only). \
+           c04select: sorted peak lists of 0..14 peaks on a coarse mass grid (many ties in mass and intensity), \
+           window centres on / between grid points, ppm and Da tolerances incl. empty and inverted windows, optional \
+           offset; exhaustive small scope in the thorough tier (all intensity assignments over {0,1,2} for <= 5 \
+           peaks x all windows). non-trivial = score1: the spectrum contains at least one ladder peak placed \
+           inside the tolerance and the pattern is not `all at every charge`; c04select: at least one peak inside \
+           and one outside the window; distinct by request line",
+    serial: false,
+};
 
-pub fn gen(_rng: &mut Rng, _tier: Tier, _emit: &mut dyn FnMut(Case)) {}
+const KINDS: [Kind; 6] = [Kind::A, Kind::B, Kind::C, Kind::X, Kind::Y, Kind::Z];
 
-pub fn exec(_op: &str, _t: &mut Toks) -> Option<String> {
-    None
+fn kind_ix(k: Kind) -> usize {
+    match k {
+        Kind::A => 0,
+        Kind::B => 1,
+        Kind::C => 2,
+        Kind::X => 3,
+        Kind::Y => 4,
+        Kind::Z => 5,
+    }
+}
+
+fn canon32(x: f32) -> u32 {
+    if x.is_nan() {
+        0x7FC0_0000
+    } else {
+        x.to_bits()
+    }
+}
+fn canon64(x: f64) -> u64 {
+    if x.is_nan() {
+        0x7FF8_0000_0000_0000
+    } else {
+        x.to_bits()
+    }
+}
+
+#[derive(Clone)]
+struct Pep {
+    seq: Vec<u8>,
+    mods: Vec<f32>,
+    nterm: Option<f32>,
+    cterm: Option<f32>,
+    mono: f32,
+}
+
+impl Pep {
+    fn consistent(seq: &[u8], mods: Vec<f32>, nterm: Option<f32>, cterm: Option<f32>) -> Pep {
+        let mut m = H2O;
+        for (i, &r) in seq.iter().enumerate() {
+            m += monoisotopic(r) + mods.get(i).copied().unwrap_or(0.0);
+        }
+        let mono = m + nterm.unwrap_or_default() + cterm.unwrap_or_default();
+        Pep { seq: seq.to_vec(), mods, nterm, cterm, mono }
+    }
+    fn plain(seq: &[u8]) -> Pep {
+        Pep::consistent(seq, vec![0.0; seq.len()], None, None)
+    }
+    fn write(&self, o: &mut Out) {
+        o.bytes(&self.seq).n(self.mods.len());
+        for &m in &self.mods {
+            o.f32(m);
+        }
+        for t in [self.nterm, self.cterm] {
+            match t {
+                None => {
+                    o.n(0);
+                }
+                Some(x) => {
+                    o.n(1).f32(x);
+                }
+            }
+        }
+        o.f32(self.mono);
+    }
+    fn read(t: &mut Toks) -> Option<Pep> {
+        let seq = t.bytes()?;
+        let mods = t.list(|t| t.f32())?;
+        let nterm = t.opt(|t| t.f32())?;
+        let cterm = t.opt(|t| t.f32())?;
+        let mono = t.f32()?;
+        Some(Pep { seq, mods, nterm, cterm, mono })
+    }
+    fn peptide(&self) -> Peptide {
+        Peptide {
+            decoy: false,
+            sequence: Arc::from(self.seq.clone().into_boxed_slice()),
+            modifications: self.mods.clone(),
+            nterm: self.nterm,
+            cterm: self.cterm,
+            monoisotopic: self.mono,
+            missed_cleavages: 0,
+            semi_enzymatic: false,
+            position: Position::Internal,
+            proteins: vec![Arc::from("P1")],
+        }
+    }
+}
+
+#[derive(Clone, Copy)]
+enum Tol {
+    Ppm(f32, f32),
+    Da(f32, f32),
+}
+
+impl Tol {
+    fn write(&self, o: &mut Out) {
+        match *self {
+            Tol::Ppm(a, b) => o.n(0).f32(a).f32(b),
+            Tol::Da(a, b) => o.n(1).f32(a).f32(b),
+        };
+    }
+    fn read(t: &mut Toks) -> Option<Tolerance> {
+        let k = t.usize()?;
+        let a = t.f32()?;
+        let b = t.f32()?;
+        match k {
+            0 => Some(Tolerance::Ppm(a, b)),
+            1 => Some(Tolerance::Da(a, b)),
+            _ => None,
+        }
+    }
+    fn sage(&self) -> Tolerance {
+        match *self {
+            Tol::Ppm(a, b) => Tolerance::Ppm(a, b),
+            Tol::Da(a, b) => Tolerance::Da(a, b),
+        }
+    }
+}
+
+struct Req {
+    kinds: Vec<usize>,
+    min_ion_index: usize,
+    bucket: usize,
+    peps: Vec<Pep>,
+    ftol: Tol,
+    ptol: Tol,
+    mfc: Option<u8>,
+    iso: (i8, i8),
+    openms: bool,
+    annotate: bool,
+    min_matched: u16,
+    prec_mz: f32,
+    z: u8,
+    /// false: `Precursor::charge = None`, the scorer tries `pc_range.0..=pc_range.1`
+    annotated: bool,
+    pc_range: (u8, u8),
+    tic: f32,
+    peaks: Vec<(f32, f32)>, // (mass, intensity)
+}
+
+impl Req {
+    fn line(&self) -> String {
+        let mut o = Out::new();
+        o.raw("score1").n(self.kinds.len());
+        for &k in &self.kinds {
+            o.n(k);
+        }
+        o.n(self.min_ion_index).n(self.bucket).n(self.peps.len());
+        for p in &self.peps {
+            p.write(&mut o);
+        }
+        self.ftol.write(&mut o);
+        self.ptol.write(&mut o);
+        match self.mfc {
+            None => {
+                o.n(0);
+            }
+            Some(c) => {
+                o.n(1).n(c);
+            }
+        }
+        o.n(self.iso.0).n(self.iso.1).b(self.openms).b(self.annotate).n(self.min_matched);
+        o.f32(self.prec_mz);
+        if self.annotated {
+            o.n(1).n(self.z);
+        } else {
+            o.n(0);
+        }
+        o.n(self.pc_range.0).n(self.pc_range.1).f32(self.tic).n(self.peaks.len());
+        for &(m, i) in &self.peaks {
+            o.f32(m).f32(i);
+        }
+        o.finish()
+    }
+}
+
+fn next_up(x: f32, steps: i32) -> f32 {
+    // move `steps` representable values (on the monotone integer line of finite positive floats)
+    if !x.is_finite() || x <= 0.0 {
+        return x;
+    }
+    let b = x.to_bits() as i64 + steps as i64;
+    f32::from_bits(b.max(1) as u32)
+}
+
+const MOD_DELTAS: [f32; 6] = [15.9949, 57.0215, 79.9663, -17.0265, 229.1629, 42.0106];
+const INTENSITIES: [f32; 5] = [0.0, 1.0, 2.5, 10.0, 100.0];
+
+fn random_pep(rng: &mut Rng) -> Pep {
+    let len = match rng.below(12) {
+        0 => 2,
+        1 => 3,
+        2 => 16 + rng.below(9),
+        _ => 4 + rng.below(11),
+    };
+    let seq: Vec<u8> = (0..len).map(|_| *rng.pick(&VALID_AA)).collect();
+    let rate = *rng.pick(&[0u32, 0, 10, 40]);
+    let mods: Vec<f32> =
+        (0..len).map(|_| if rng.chance(rate, 100) { *rng.pick(&MOD_DELTAS) } else { 0.0 }).collect();
+    let term = |rng: &mut Rng| if rng.chance(1, 6) { Some(*rng.pick(&MOD_DELTAS)) } else { None };
+    let nterm = term(rng);
+    let cterm = term(rng);
+    Pep::consistent(&seq, mods, nterm, cterm)
+}
+
+/// matched-index pattern over `m` ion indices
+fn pattern(rng: &mut Rng, m: usize) -> (Vec<bool>, &'static str) {
+    if m == 0 {
+        return (vec![], "pat-empty-series");
+    }
+    match rng.below(10) {
+        0 => (vec![true; m], "pat-all"),
+        1 => (vec![false; m], "pat-none"),
+        2 => {
+            let k = 1 + rng.below(m);
+            ((0..m).map(|i| i < k).collect(), "pat-prefix-with-index0")
+        }
+        3 => {
+            let k = 1 + rng.below(m);
+            ((0..m).map(|i| i >= m - k).collect(), "pat-suffix")
+        }
+        4 => ((0..m).map(|i| i == 0).collect(), "pat-only-index0")
+        ,
+        5 => {
+            let ph = rng.below(2);
+            ((0..m).map(|i| i % 2 == ph).collect(), "pat-alternating")
+        }
+        6 | 7 => {
+            // two blocks separated by a gap; lengths random, so the longer is first or last
+            let a = 1 + rng.below(m.max(2) / 2);
+            let gap = 1 + rng.below(2);
+            let b = 1 + rng.below(m.max(2) / 2);
+            let start = rng.below(2);
+            (
+                (0..m).map(|i| (i >= start && i < start + a) || (i >= start + a + gap && i < start + a + gap + b)).collect(),
+                "pat-two-blocks",
+            )
+        }
+        _ => {
+            let rate = *rng.pick(&[20u32, 50, 80]);
+            ((0..m).map(|_| rng.chance(rate, 100)).collect(), "pat-random")
+        }
+    }
+}
+
+const KIND_SETS: [&[usize]; 12] = [
+    &[1, 4],
+    &[1, 4],
+    &[1, 4],
+    &[4, 1],
+    &[1],
+    &[4],
+    &[2, 5],
+    &[0, 3],
+    &[0, 1, 4],
+    &[1, 3, 4, 5],
+    &[0, 1, 2, 3, 4, 5],
+    &[1, 1, 4],
+];
+
+struct Built {
+    req: Req,
+    tags: Vec<&'static str>,
+    nontrivial: bool,
+}
+
+fn tol_width(t: Tol, center: f32) -> (f32, f32) {
+    match t {
+        Tol::Ppm(a, b) => (center * a / 1_000_000.0, center * b / 1_000_000.0),
+        Tol::Da(a, b) => (a, b),
+    }
+}
+
+fn random_case(rng: &mut Rng, negative: bool) -> Built {
+    let mut tags: Vec<&'static str> = vec![];
+    let npep = *rng.pick(&[1usize, 1, 2, 3]);
+    let mut peps: Vec<Pep> = (0..npep).map(|_| random_pep(rng)).collect();
+    if npep > 1 && rng.chance(1, 4) {
+        // an isobaric permutation of the first peptide (same mass region, shared fragments)
+        let mut s = peps[0].seq.clone();
+        rng.shuffle(&mut s);
+        peps[1] = Pep::plain(&s);
+        tags.push("isobaric-pair");
+    }
+    peps.sort_by(|a, b| a.mono.total_cmp(&b.mono));
+    let target = rng.below(peps.len());
+    let kinds: Vec<usize> = rng.pick(&KIND_SETS).to_vec();
+    let n_side = kinds.iter().filter(|&&k| k < 3).count();
+    let c_side = kinds.len() - n_side;
+    if n_side > 1 || c_side > 1 {
+        tags.push("multi-kind-per-terminus");
+    }
+    if n_side == 0 || c_side == 0 {
+        tags.push("one-sided");
+    }
+    let min_ion_index = *rng.pick(&[0usize, 0, 0, 1, 2, 2, 3]);
+    let bucket = *rng.pick(&[1usize, 3, 8192]);
+    let ftol = match rng.below(6) {
+        0 => Tol::Ppm(-10.0, 10.0),
+        1 => Tol::Ppm(-20.0, 20.0),
+        2 => Tol::Ppm(-5.0, 15.0),
+        3 => Tol::Da(-0.02, 0.02),
+        4 => Tol::Da(-0.5, 0.5),
+        _ => Tol::Da(-0.01, 0.03),
+    };
+    tags.push(match ftol {
+        Tol::Ppm(..) => "ftol-ppm",
+        Tol::Da(..) => "ftol-da",
+    });
+    let z = 1 + rng.below(4) as u8;
+    let mfc = *rng.pick(&[None, None, Some(1u8), Some(2), Some(3)]);
+    let iso = *rng.pick(&[(0i8, 0i8), (0, 0), (-1, 3), (0, 1), (1, 1), (-1, 0)]);
+    let true_iso: i8 = if iso.0 != iso.1 { iso.0 + rng.below((iso.1 - iso.0 + 1) as usize) as i8 } else { 0 };
+    let narrow = rng.chance(1, 3);
+    let ptol = if narrow {
+        tags.push("ptol-narrow");
+        if rng.chance(1, 2) {
+            Tol::Ppm(-50.0, 50.0)
+        } else {
+            Tol::Da(-0.3, 0.3)
+        }
+    } else {
+        tags.push("ptol-wide");
+        Tol::Da(-6000.0, 6000.0)
+    };
+    if iso.0 != iso.1 {
+        tags.push("isotope-range");
+    }
+    let openms = rng.chance(1, 5);
+    let annotate = rng.chance(1, 2);
+    let min_matched = *rng.pick(&[0u16, 0, 0, 0, 0, 0, 0, 3]);
+    let tp = &peps[target];
+    let ppm_err = (rng.unit() as f32 - 0.5) * 10.0;
+    let prec_mass = (tp.mono + true_iso as f32 * NEUTRON) * (1.0 + ppm_err / 1.0e6);
+    let prec_mz = prec_mass / z as f32 + PROTON;
+
+    // ---- spectrum ----
+    let pt = tp.peptide();
+    let mut peaks: Vec<(f32, f32)> = vec![];
+    let mut inside_any = false;
+    let mut all_everywhere = true;
+    let every_charge = rng.chance(1, 4);
+    // the scorer's excluded upper bound of fragment charges
+    let top_charge: u8 = z.min(mfc.map(|c| c + 1).unwrap_or(z)).max(2);
+    let mut pat_tags: Vec<&'static str> = vec![];
+    for (ki, kind) in KINDS.iter().enumerate() {
+        let configured = kinds.contains(&ki);
+        // unconfigured kinds: sparse decoy peaks
+        let ions: Vec<f32> = IonSeries::new(&pt, *kind).map(|i| i.monoisotopic_mass).collect();
+        let (pat, ptag) = if configured {
+            pattern(rng, ions.len())
+        } else {
+            ((0..ions.len()).map(|_| rng.chance(1, 6)).collect(), "")
+        };
+        if configured {
+            pat_tags.push(ptag);
+        }
+        for (j, &ion) in ions.iter().enumerate() {
+            if !pat[j] {
+                if configured {
+                    all_everywhere = false;
+                }
+                continue;
+            }
+            // mostly charges the scorer will actually look at (1..max_fragment_charge), sometimes any of 1..3
+            let charges: Vec<u8> = if every_charge {
+                vec![1, 2, 3]
+            } else if rng.chance(4, 5) {
+                vec![1 + rng.below((top_charge - 1) as usize) as u8]
+            } else {
+                vec![1 + rng.below(3) as u8]
+            };
+            if !every_charge && configured {
+                all_everywhere = false;
+            }
+            for c in charges {
+                let mz = ion / c as f32;
+                let (wlo, whi) = tol_width(ftol, mz);
+                let frac = *rng.pick(&[0.0f32, 0.0, 0.5, -0.5, 0.9, -0.9, 0.999, -0.999, 1.001, -1.001, 1.1, -1.1, 2.0, -2.0]);
+                let w = if frac >= 0.0 { whi } else { -wlo };
+                let mut mass = mz + frac * w;
+                if rng.chance(1, 8) {
+                    // exact window edge +- a few ulp
+                    let edge = if rng.chance(1, 2) { mz + whi } else { mz + wlo };
+                    mass = next_up(edge, rng.range(-3, 3) as i32);
+                    if !tags.contains(&"edge-ulp") {
+                        tags.push("edge-ulp");
+                    }
+                }
+                let inten = if rng.chance(1, 3) { (rng.unit() * 1000.0) as f32 } else { *rng.pick(&INTENSITIES) };
+                if configured && frac.abs() < 1.0 {
+                    inside_any = true;
+                }
+                peaks.push((mass, inten));
+                if rng.chance(1, 4) {
+                    // more peaks in the same window: ties or distinct intensities
+                    let extra = 1 + rng.below(2);
+                    for _ in 0..extra {
+                        let f2 = (rng.unit() as f32 * 1.6 - 0.8) * if rng.chance(1, 2) { whi } else { -wlo };
+                        let i2 = if rng.chance(1, 2) { inten } else { *rng.pick(&INTENSITIES) };
+                        peaks.push((mz + f2, i2));
+                    }
+                    if !tags.contains(&"multi-peak-window") {
+                        tags.push("multi-peak-window");
+                    }
+                }
+            }
+        }
+    }
+    // noise
+    let noise = *rng.pick(&[0usize, 0, 3, 10, 40]);
+    for _ in 0..noise {
+        peaks.push(((rng.unit() * tp.mono as f64 * 1.1) as f32 + 30.0, (rng.unit() * 50.0) as f32));
+    }
+    if negative {
+        let k = 1 + rng.below(3);
+        for _ in 0..k {
+            if peaks.is_empty() {
+                break;
+            }
+            let i = rng.below(peaks.len());
+            peaks[i].1 = match rng.below(4) {
+                0 => f32::NAN,
+                1 => -0.0,
+                _ => -(rng.unit() as f32) * 10.0 - 0.5,
+            };
+        }
+        tags.push("neg-intensity");
+    }
+    peaks.retain(|p| p.0.is_finite() && p.0 > 0.0);
+    peaks.sort_by(|a, b| a.0.total_cmp(&b.0));
+    let tic = match rng.below(8) {
+        0 => {
+            tags.push("tic-zero");
+            0.0
+        }
+        1 => {
+            tags.push("tic-arbitrary");
+            (rng.unit() * 5000.0) as f32 + 1.0
+        }
+        _ => peaks.iter().map(|p| p.1).sum::<f32>(),
+    };
+    for t in pat_tags {
+        if !t.is_empty() && !tags.contains(&t) {
+            tags.push(t);
+        }
+    }
+    if openms {
+        tags.push("openms");
+    }
+    if annotate {
+        tags.push("annotate");
+    }
+    let annotated = !rng.chance(1, 5);
+    let pc_range = *rng.pick(&[(2u8, 4u8), (1, 3), (2, 2), (3, 2)]);
+    if !annotated {
+        tags.push("unannotated-charge");
+    }
+    let req = Req {
+        annotated,
+        pc_range,
+        kinds,
+        min_ion_index,
+        bucket,
+        peps,
+        ftol,
+        ptol,
+        mfc,
+        iso,
+        openms,
+        annotate,
+        min_matched,
+        prec_mz,
+        z,
+        tic,
+        peaks,
+    };
+    Built { req, tags, nontrivial: inside_any && !all_everywhere && !negative }
+}
+
+/// the complete ladder of one peptide at charge 1, intensity 1 (the repaired index-0 case and friends)
+fn full_ladder_case(seq: &[u8], kinds: &[usize], keep: &dyn Fn(usize, usize) -> bool, annotate: bool) -> Req {
+    let p = Pep::plain(seq);
+    let pt = p.peptide();
+    let mut peaks = vec![];
+    for &k in kinds {
+        for (j, ion) in IonSeries::new(&pt, KINDS[k]).enumerate() {
+            if keep(k, j) {
+                peaks.push((ion.monoisotopic_mass, 1.0 + (j as f32)));
+            }
+        }
+    }
+    peaks.sort_by(|a: &(f32, f32), b| a.0.total_cmp(&b.0));
+    let tic = peaks.iter().map(|p| p.1).sum::<f32>();
+    Req {
+        kinds: kinds.to_vec(),
+        min_ion_index: 0,
+        bucket: 8192,
+        prec_mz: p.mono / 2.0 + PROTON,
+        peps: vec![p],
+        ftol: Tol::Ppm(-10.0, 10.0),
+        ptol: Tol::Da(-1.0, 1.0),
+        mfc: None,
+        iso: (0, 0),
+        openms: false,
+        annotate,
+        min_matched: 0,
+        z: 2,
+        annotated: true,
+        pc_range: (2, 4),
+        tic,
+        peaks,
+    }
+}
+
+fn emit_req(emit: &mut dyn FnMut(Case), req: &Req, tags: &[&'static str], nontrivial: bool) {
+    let mut c = Case::new(req.line()).tag("score1").nontrivial(nontrivial);
+    for t in tags {
+        c = c.tag(t);
+    }
+    emit(c);
+}
+
+fn select_line(tol: Tol, center: f32, off: Option<f32>, peaks: &[(f32, f32)]) -> String {
+    let mut o = Out::new();
+    o.raw("c04select");
+    tol.write(&mut o);
+    o.f32(center);
+    match off {
+        None => {
+            o.n(0);
+        }
+        Some(x) => {
+            o.n(1).f32(x);
+        }
+    }
+    o.n(peaks.len());
+    for &(m, i) in peaks {
+        o.f32(m).f32(i);
+    }
+    o.finish()
+}
+
+fn gen_select(rng: &mut Rng, tier: Tier, emit: &mut dyn FnMut(Case)) {
+    let grid = |k: usize| 100.0f32 + k as f32 * 0.25;
+    let nt = |tol: Tol, center: f32, off: Option<f32>, peaks: &[(f32, f32)]| -> bool {
+        let (lo, hi) = tol.sage().bounds(center);
+        let (lo, hi) = (lo + off.unwrap_or_default(), hi + off.unwrap_or_default());
+        let inside = peaks.iter().filter(|p| p.0 >= lo && p.0 <= hi).count();
+        inside >= 1 && inside < peaks.len()
+    };
+    // exhaustive small scope
+    let maxn = if tier == Tier::Quick { 3 } else { 5 };
+    for n in 0..=maxn {
+        let combos = 3usize.pow(n as u32);
+        for code in 0..combos {
+            let mut c = code;
+            let peaks: Vec<(f32, f32)> = (0..n)
+                .map(|k| {
+                    let i = (c % 3) as f32;
+                    c /= 3;
+                    (grid(k), i)
+                })
+                .collect();
+            for lo_k in 0..=n {
+                for hi_k in lo_k..=n {
+                    // window [grid(lo_k) - 0.1, grid(hi_k) - 0.15]: covers peaks lo_k..hi_k-1 (empty when equal)
+                    let a = grid(lo_k) - 0.1;
+                    let b = grid(hi_k) - 0.15;
+                    let center = (a + b) / 2.0;
+                    let tol = Tol::Da(a - center, b - center);
+                    emit(
+                        Case::new(select_line(tol, center, None, &peaks))
+                            .tag("c04select")
+                            .tag("select-exhaustive")
+                            .nontrivial(nt(tol, center, None, &peaks)),
+                    );
+                }
+            }
+        }
+    }
+    let n = if tier == Tier::Quick { 2000 } else { 100000 };
+    for it in 0..n {
+        let negative = it % 10 == 9;
+        let np = rng.below(15);
+        let mut peaks: Vec<(f32, f32)> = (0..np)
+            .map(|_| {
+                let m = grid(rng.below(12)) + if rng.chance(1, 4) { (rng.unit() as f32 - 0.5) * 0.01 } else { 0.0 };
+                let i = if rng.chance(1, 4) { (rng.unit() * 20.0) as f32 } else { *rng.pick(&INTENSITIES) };
+                (m, i)
+            })
+            .collect();
+        if negative && !peaks.is_empty() {
+            for _ in 0..1 + rng.below(3) {
+                let i = rng.below(peaks.len());
+                peaks[i].1 = if rng.chance(1, 4) { f32::NAN } else { -(rng.unit() as f32) * 5.0 - 0.25 };
+            }
+        }
+        peaks.sort_by(|a, b| a.0.total_cmp(&b.0));
+        let center = grid(rng.below(12)) + *rng.pick(&[0.0f32, 0.0, 0.125, -0.05, 0.3]);
+        let tol = match rng.below(6) {
+            0 => Tol::Da(-0.25, 0.25),
+            1 => Tol::Da(-0.5, 0.0),
+            2 => Tol::Da(0.0, 0.0),
+            3 => Tol::Da(0.3, -0.3),
+            4 => Tol::Ppm(-2500.0, 2500.0),
+            _ => Tol::Ppm(-20.0, 20.0),
+        };
+        let off = if rng.chance(1, 4) { Some(*rng.pick(&[0.25f32, -0.25, PROTON * 1.0e-5])) } else { None };
+        let mut c = Case::new(select_line(tol, center, off, &peaks))
+            .tag("c04select")
+            .tag("select-random")
+            .tag_if(negative, "neg-intensity")
+            .tag_if(off.is_some(), "select-offset")
+            .tag_if(np == 0, "select-empty");
+        c = c.nontrivial(!negative && nt(tol, center, off, &peaks));
+        emit(c);
+    }
+}
+
+pub fn gen(rng: &mut Rng, tier: Tier, emit: &mut dyn FnMut(Case)) {
+    gen_select(rng, tier, emit);
+
+    // ---- directed score1 cases ----
+    // the repaired finding: PEPTIDEK with its complete b/y ladder (longest_b = longest_y = 7)
+    emit_req(emit, &full_ladder_case(b"PEPTIDEK", &[1, 4], &|_, _| true, true), &["directed", "full-ladder-index0"], true);
+    // index patterns through Run: only index 0; 0..2; gap; all but 0; two blocks
+    let pats: [(&'static str, fn(usize, usize) -> bool); 7] = [
+        ("run-only-index0", |_, j| j == 0),
+        ("run-0-1-2", |_, j| j < 3),
+        ("run-gap", |_, j| j != 3),
+        ("run-all-but-0", |_, j| j != 0),
+        ("run-two-blocks-longer-last", |_, j| j == 0 || j == 1 || j >= 3),
+        ("run-two-blocks-longer-first", |_, j| j <= 3 || j == 6),
+        ("run-b-only", |k, _| k == 1),
+    ];
+    for (tag, f) in pats {
+        for ann in [false, true] {
+            emit_req(emit, &full_ladder_case(b"PEPTIDEKR", &[1, 4], &f, ann), &["directed", tag], true);
+        }
+    }
+    // several kinds per terminus, all kinds, single sided
+    emit_req(emit, &full_ladder_case(b"ACDEFGHK", &[0, 1, 4], &|_, _| true, true), &["directed", "multi-kind-per-terminus"], true);
+    emit_req(emit, &full_ladder_case(b"ACDEFGHK", &[0, 1, 2, 3, 4, 5], &|_, j| j % 2 == 0, true), &["directed", "multi-kind-per-terminus"], true);
+    emit_req(emit, &full_ladder_case(b"ACDEFGHK", &[4], &|_, j| j < 4, false), &["directed", "one-sided"], true);
+    // several kinds on one terminus share one ladder counter: a3 + b0,b1,b2 matched, kinds listed as [a,b] and as [b,a]
+    // (the counter sees 3,0,1,2 resp. 0,1,2,3: longest_b = 3 resp. 4 — modelled and compared, outside the spec)
+    for kinds in [[0usize, 1], [1, 0]] {
+        let f = |k: usize, j: usize| (k == 0 && j == 3) || (k == 1 && j < 3);
+        emit_req(emit, &full_ladder_case(b"ACDEFGHK", &kinds, &f, true), &["directed", "multi-kind-order"], true);
+    }
+    // empty spectrum, two-residue peptide, one-residue peptide (no ions at all)
+    {
+        let mut r = full_ladder_case(b"PEPTIDEK", &[1, 4], &|_, _| false, false);
+        r.tic = 0.0;
+        emit_req(emit, &r, &["directed", "empty-spectrum"], false);
+        emit_req(emit, &full_ladder_case(b"GK", &[1, 4], &|_, _| true, true), &["directed", "two-residues"], true);
+        emit_req(emit, &full_ladder_case(b"K", &[1, 4], &|_, _| true, true), &["directed", "one-residue"], false);
+    }
+    // dense spectrum: a peak every ~0.37 Da with cycling intensities
+    for (ftol, ann) in [(Tol::Da(-0.5, 0.5), true), (Tol::Ppm(-20.0, 20.0), false), (Tol::Da(-0.02, 0.02), false)] {
+        let mut r = full_ladder_case(b"LGEYGFQNALIVR", &[1, 4], &|_, _| true, ann);
+        let mut m = 50.0f32;
+        let mut k = 0usize;
+        while m < 1600.0 {
+            r.peaks.push((m, INTENSITIES[k % 5] + (k % 3) as f32));
+            m += 0.37;
+            k += 1;
+        }
+        r.peaks.sort_by(|a, b| a.0.total_cmp(&b.0));
+        r.tic = r.peaks.iter().map(|p| p.1).sum::<f32>();
+        r.ftol = ftol;
+        r.z = 3;
+        r.prec_mz = r.peps[0].mono / 3.0 + PROTON;
+        emit_req(emit, &r, &["directed", "dense-spectrum"], true);
+    }
+    // max_fragment_charge settings on a ladder present at charges 1..3
+    for z in 1..=4u8 {
+        for mfc in [None, Some(1u8), Some(2), Some(3), Some(4)] {
+            let mut r = full_ladder_case(b"PEPTIDEKR", &[1, 4], &|_, j| j % 3 != 1, z % 2 == 0);
+            let base = r.peaks.clone();
+            for c in 2..=3 {
+                for &(m, i) in &base {
+                    r.peaks.push((m / c as f32, i + c as f32));
+                }
+            }
+            r.peaks.sort_by(|a, b| a.0.total_cmp(&b.0));
+            r.tic = r.peaks.iter().map(|p| p.1).sum::<f32>();
+            r.z = z;
+            r.mfc = mfc;
+            r.prec_mz = r.peps[0].mono / z as f32 + PROTON;
+            emit_req(emit, &r, &["directed", "fragment-charge-limit"], true);
+        }
+    }
+
+    // ---- exhaustive small scope: every matched-index pattern of both ladders of one peptide ----
+    // (quick: 5 residues = 4 ions per series, 256 patterns; thorough: 7 residues = 6 ions per series, 4096 patterns)
+    {
+        let seq: &[u8] = if tier == Tier::Quick { b"ACDEK" } else { b"ACDEFGK" };
+        let m = seq.len() - 1;
+        for bits in 0u32..(1u32 << (2 * m)) {
+            let f = move |k: usize, j: usize| {
+                let off = if k == 1 { 0 } else { m };
+                (bits >> (off + j)) & 1 == 1
+            };
+            let mut r = full_ladder_case(seq, &[1, 4], &f, bits % 7 == 0);
+            r.ptol = Tol::Da(-1.0, 1.0);
+            emit_req(emit, &r, &["exhaustive-patterns"], bits != 0);
+        }
+    }
+
+    // ---- random score1 cases ----
+    let n = if tier == Tier::Quick { 2500 } else { 150000 };
+    for it in 0..n {
+        let negative = it % 12 == 11;
+        let b = random_case(rng, negative);
+        let mut tags = b.tags.clone();
+        tags.push("random");
+        emit_req(emit, &b.req, &tags, b.nontrivial);
+    }
+}
+
+pub fn exec(op: &str, t: &mut Toks) -> Option<String> {
+    match op {
+        "c04select" => {
+            let tol = Tol::read(t)?;
+            let center = t.f32()?;
+            let off = t.opt(|t| t.f32())?;
+            let peaks: Vec<Peak> = t.list(|t| {
+                let mass = t.f32()?;
+                let intensity = t.f32()?;
+                Some(Peak { mass, intensity })
+            })?;
+            if !t.done() {
+                return None;
+            }
+            let mut o = Out::new();
+            match select_most_intense_peak(&peaks, center, tol, off) {
+                None => {
+                    o.n(0);
+                }
+                Some(p) => {
+                    o.n(1).n(canon32(p.mass)).n(canon32(p.intensity));
+                }
+            }
+            Some(o.finish())
+        }
+        "score1" => {
+            let kinds = t.list(|t| t.usize())?;
+            let min_ion_index = t.usize()?;
+            let bucket_size = t.usize()?;
+            let peps = t.list(Pep::read)?;
+            let ftol = Tol::read(t)?;
+            let ptol = Tol::read(t)?;
+            let mfc = t.opt(|t| t.usize())?.map(|c| c as u8);
+            let iso_lo = t.i64()? as i8;
+            let iso_hi = t.i64()? as i8;
+            let openms = t.bool()?;
+            let annotate = t.bool()?;
+            let min_matched = t.usize()? as u16;
+            let prec_mz = t.f32()?;
+            let z = t.opt(|t| t.usize())?.map(|z| z as u8);
+            let min_pc = t.usize()? as u8;
+            let max_pc = t.usize()? as u8;
+            let tic = t.f32()?;
+            let peaks: Vec<Peak> = t.list(|t| {
+                let mass = t.f32()?;
+                let intensity = t.f32()?;
+                Some(Peak { mass, intensity })
+            })?;
+            if !t.done() || bucket_size == 0 {
+                return None;
+            }
+            let ion_kinds: Vec<Kind> = kinds.iter().map(|&k| KINDS.get(k).copied()).collect::<Option<Vec<_>>>()?;
+            let params = Parameters {
+                bucket_size,
+                enzyme: EnzymeBuilder::default(),
+                peptide_min_mass: 0.0,
+                peptide_max_mass: 1.0e9,
+                ion_kinds,
+                min_ion_index,
+                static_mods: Default::default(),
+                variable_mods: Default::default(),
+                max_variable_mods: 2,
+                decoy_tag: "rev_".into(),
+                generate_decoys: false,
+                fasta: String::new(),
+                prefilter_chunk_size: 0,
+                prefilter: false,
+                prefilter_low_memory: true,
+            };
+            let db = params.build_from_peptides(peps.iter().map(|p| p.peptide()).collect());
+            let scorer = Scorer {
+                db: &db,
+                precursor_tol: ptol,
+                fragment_tol: ftol,
+                min_matched_peaks: min_matched,
+                min_isotope_err: iso_lo,
+                max_isotope_err: iso_hi,
+                min_precursor_charge: min_pc,
+                max_precursor_charge: max_pc,
+                override_precursor_charge: false,
+                max_fragment_charge: mfc,
+                chimera: false,
+                report_psms: 1000,
+                wide_window: false,
+                annotate_matches: annotate,
+                score_type: if openms { ScoreType::OpenMSHyperScore } else { ScoreType::SageHyperScore },
+            };
+            let spectrum = ProcessedSpectrum {
+                level: 2,
+                id: "s".into(),
+                file_id: 0,
+                scan_start_time: 1.0,
+                ion_injection_time: 0.0,
+                precursors: vec![Precursor {
+                    mz: prec_mz,
+                    intensity: None,
+                    charge: z,
+                    spectrum_ref: None,
+                    isolation_window: None,
+                    inverse_ion_mobility: None,
+                }],
+                peaks,
+                total_ion_current: tic,
+            };
+            let mut feats = scorer.score(&spectrum);
+            feats.sort_by(|a, b| {
+                a.peptide_idx.0.cmp(&b.peptide_idx.0).then(a.charge.cmp(&b.charge)).then(a.isotope_error.total_cmp(&b.isotope_error))
+            });
+            let mut o = Out::new();
+            o.n(feats.len());
+            for f in &feats {
+                o.n(f.peptide_idx.0).n(canon32(f.isotope_error)).n(f.peptide_len).n(f.charge);
+                o.n(canon32(f.expmass)).n(canon32(f.calcmass)).n(canon32(f.delta_mass)).n(canon32(f.average_ppm));
+                o.n(canon64(f.hyperscore)).n(f.matched_peaks).n(f.longest_b).n(f.longest_y);
+                o.n(canon32(f.longest_y_pct)).n(canon32(f.matched_intensity_pct)).n(f.scored_candidates);
+                o.n(canon64(f.poisson)).n(canon32(f.ms2_intensity));
+                match &f.fragments {
+                    None => {
+                        o.n(0);
+                    }
+                    Some(fr) => {
+                        o.n(1).n(fr.kinds.len());
+                        for i in 0..fr.kinds.len() {
+                            o.n(kind_ix(fr.kinds[i])).n(fr.charges[i]).n(fr.fragment_ordinals[i]);
+                            o.n(canon32(fr.intensities[i])).n(canon32(fr.mz_calculated[i])).n(canon32(fr.mz_experimental[i]));
+                        }
+                    }
+                }
+            }
+            Some(o.finish())
+        }
+        _ => None,
+    }
 }
